@@ -5,6 +5,8 @@ package dutydb
 import (
 	"context"
 
+	eth2p0 "github.com/attestantio/go-eth2-client/spec/phase0"
+
 	"github.com/obolnetwork/charon/core"
 	"github.com/obolnetwork/charon/zzverif/vrt"
 )
@@ -37,5 +39,38 @@ func VerifC18DutyDB() {
 	r1.Source.Epoch += 7
 	r4, _ := db.AwaitAttestation(ctx, a.slot, a.comm)
 	vrt.AssertKF("a reader mutating its result does not change later answers", vSame(r4, a), "C18-a", true)
+	vrt.Reach("end")
+}
+
+func init() { VerifHarnesses["VerifC18Blocked"] = VerifC18Blocked }
+
+// VerifC18Blocked: two readers are already waiting (same key, and the committee-0 alias) when the attestation is stored:
+// what the woken readers and a later reader receive is private to each of them.
+func VerifC18Blocked() {
+	dl := &vDeadliner{status: core.DeadlineScheduled, ch: make(chan core.Duty, 1)}
+	db := NewMemDB(dl)
+	ctx := context.Background()
+	a := vDrawAtt("a")
+	var r1, r2 *eth2p0.AttestationData
+	var e1, e2 error
+	vrt.Par(
+		func() { r1, e1 = db.AwaitAttestation(ctx, a.slot, a.comm) },
+		func() { r2, e2 = db.AwaitAttestation(ctx, a.slot, 0) },
+		func() {
+			err := db.Store(ctx, core.Duty{Slot: a.slot, Type: core.DutyAttester}, core.UnsignedDataSet{vPkA: a.data()})
+			vrt.Assert("store succeeds", err == nil)
+		},
+	)
+	vrt.Assert("woken readers are served", e1 == nil && e2 == nil && r1 != nil && r2 != nil && vSame(r1, a) && vSame(r2, a))
+	vrt.Reach("readers woken")
+	r3, e3 := db.AwaitAttestation(ctx, a.slot, a.comm)
+	vrt.Assert("later reader is served", e3 == nil && r3 != nil)
+	vrt.Assert("woken and later readers never receive the same mutable memory",
+		!vrt.SameObject(r1, r2) && !vrt.SameObject(r1, r3) && !vrt.SameObject(r2, r3) &&
+			!vrt.SameObject(r1.Source, r2.Source) && !vrt.SameObject(r1.Source, r3.Source) && !vrt.SameObject(r1.Target, r3.Target))
+	r1.Source.Epoch += 5
+	r2.BeaconBlockRoot[0] ^= 0xff
+	r4, e4 := db.AwaitAttestation(ctx, a.slot, a.comm)
+	vrt.Assert("a woken reader mutating its result does not change later answers", e4 == nil && vSame(r4, a))
 	vrt.Reach("end")
 }
